@@ -3,7 +3,7 @@ from . import has_class
 CFG = {
     "harness": ["v1", "v2"],
     "functional": ["C14.names", "C14.plural", "C14.private"],
-    "required_classes": ["plural-one-letter-exception", "names", "kind-named", "kind-builtin", "kind-map", "kind-slice", "kind-array", "kind-pointer", "kind-chan",
+    "required_classes": ["type-named-like-an-ignore-word", "plural-one-letter-exception", "names", "kind-named", "kind-builtin", "kind-map", "kind-slice", "kind-array", "kind-pointer", "kind-chan",
                          "kind-struct", "kind-interface", "kind-func", "affix", "digit-affix", "prepend", "negative-prepend", "private",
                          "fresh-namers", "plural-exhaustive", "plural-words", "is-private", "ignore-word-with-punctuation", "kind-other"],
     "rule": "hand-built types.Type graphs (named types over 11 package paths with dots, dashes, underscores, ignored words; builtins; map/slice/array/pointer/chan/struct/interface/func nestings to depth 4), random NameStrategy configurations (prefix/suffix incl. digits and kind-word prefixes, public/private, ignore words nil/1/3, prepend -1..5), call sequences over root and subterms in random order with repeats on ONE namer; interface types re-named by 30 fresh namers; plural namers over a word list and all words of length <= 3 (thorough: 4) over {s,x,y,h,e,f,c,b,a}; non-trivial = input longer than 12 characters; distinct = distinct (entry,input)",
